@@ -213,10 +213,14 @@ def observe(res: Dict[str, Any], frames: Dict[int, bytes], timecode: bool) -> Tu
     streams: Dict[int, bytes] = {}
     pending: Dict[int, bytes] = {}      # uid -> header bytes waiting for their payload write
     nm = 0
-    end = marks[-1] if marks else len(ev)
-    # round i covers events[marks[i] : marks[i+1]]; the last mark is the exhausted read-select (shutdown follows)
-    boundaries = set(marks[:-1]) if len(marks) > 0 else set()
-    bl = sorted(marks[:-1])
+    # round i covers events[marks[i] : marks[i+1]]; without a crash the last mark is the exhausted read-select (shutdown
+    # follows); after a crash every mark starts a round and the crash round ends where run()'s `finally` starts closing
+    if res["crash"]:
+        end = res.get("crash_end", len(ev))
+        bl = sorted(marks)
+    else:
+        end = marks[-1] if marks else len(ev)
+        bl = sorted(marks[:-1])
     bi = 0
     for i, e in enumerate(ev[:end]):
         while bi < len(bl) and bl[bi] == i:
